@@ -45,6 +45,16 @@ def unseq(t):
     return t
 
 
+def grown(t):
+    """the comprehension a sequence is (or ends with): [E for ...], or a list/tuple whose last entry is *[E for ...] (grown in a loop after
+    other entries); None otherwise.  `x = []; for ...: x.append(E)` and `x = [E for ...]` are the same term"""
+    if t[0] == "comp":
+        return t
+    if t[0] in ("list", "tuple") and t[1] and t[1][-1][0] == "star" and t[1][-1][1][0] == "comp":
+        return t[1][-1][1]
+    return None
+
+
 CAST_FUNCS = {"numpy.asarray", "numpy.array", "numpy.asanyarray", "numpy.ascontiguousarray", "numpy.asfarray", "numpy.require"}
 WIDE_DTYPES = {"float64", "float", "f8", "d", "double", "longdouble", "float128", "complex", "complex128", "numpy.float64", "numpy.double", "numpy.float_",
                "numpy.longdouble", "numpy.complex128", "builtins.float", "builtins.complex", "object", "builtins.object", "O"}
